@@ -20,7 +20,7 @@ def sh(cmd, cwd=None, timeout=3600):
 def verify(pid, n):
     wt = f"/tmp/seed/{pid}"
     sd = f"{wt}/_seed/{n}"
-    meta = {"property": pid, "seed": f"{pid}-{n}", "verified_at": time.strftime("%Y-%m-%d %H:%M:%S"), "steps": []}
+    meta = {"property": pid[:3], "seed": f"{pid}-{n}", "verified_at": time.strftime("%Y-%m-%d %H:%M:%S"), "steps": []}
     sh("git checkout -- .", cwd=wt)
     rc, out = sh(f"git apply --check {sd}/patch.diff", cwd=wt)
     if rc != 0:
@@ -50,7 +50,7 @@ def verify(pid, n):
         ct = open(f"{dst}/demo/Cargo.toml").read().replace(wt, "/repo")
         open(f"{dst}/demo/Cargo.toml", "w").write(ct)
         notes = open(f"{sd}/notes.md").read()
-        meta["breaks"] = pid
+        meta["breaks"] = pid[:3]
         meta["needs_to_manifest"] = notes[:1500]
         meta["detected_by"] = {}
         json.dump(meta, open(f"{dst}/meta.json", "w"), indent=1)
